@@ -161,7 +161,8 @@ def atoms():
         a.append(jv("str", s))
     for idx, t in enumerate(TEMPORALS):
         a.append(jv("temporal", repr(t), idx=idx))
-    for s in ["a/b", "/a", "."]:
+    # (paths that a lexical normalisation would identify: pathlib keeps x/.. , the hash is that of the text as pathlib spells it)
+    for s in ["a/b", "/a", ".", "a/x/../b", "/a/..", "/", "../a", "a/../../b", "a/b/..", "a"]:
         a.append(jv("ppath", str(PurePosixPath(s))))
     a.append(jv("cpath", "<a/b>"))
     for u in sorted(UNSUPPORTED):
